@@ -41,7 +41,7 @@ fn c01_value(ops: &TypeOps, case: &Case, rep: &mut Report) {
 }
 
 /// Borrowed / unsized / reference forms that only encode.
-fn c01_borrowed(rng: &mut Rng, n: u64, rep: &mut Report) {
+fn c01_borrowed(rng: &mut Rng, n: u64, small: bool, rep: &mut Report) {
 	use bitvec::prelude::*;
 	fn check(rep: &mut Report, what: &str, got: Vec<u8>, spec: &[u8]) {
 		rep.evaluations += 1;
@@ -61,7 +61,7 @@ fn c01_borrowed(rng: &mut Rng, n: u64, rep: &mut Report) {
 		($($t:ty),*) => {$({
 			let ops = monitor::probe_ops!(Vec<$t>);
 			for _ in 0..n {
-				let c = gen_case(&ops, rng, false);
+				let c = gen_case(&ops, rng, small);
 				let v = <Vec<$t> as monitor::bridge::Modelled>::from_val(&c.val);
 				check(rep, concat!("[", stringify!($t), "]"), v[..].encode(), &c.bytes);
 				check(rep, concat!("&[", stringify!($t), "]"), (&v[..]).encode(), &c.bytes);
@@ -76,7 +76,7 @@ fn c01_borrowed(rng: &mut Rng, n: u64, rep: &mut Report) {
 	{
 		let ops = monitor::probe_ops!(String);
 		for _ in 0..n {
-			let c = gen_case(&ops, rng, false);
+			let c = gen_case(&ops, rng, small);
 			let s = <String as monitor::bridge::Modelled>::from_val(&c.val);
 			check(rep, "str", s.as_str().encode(), &c.bytes);
 			check(rep, "&str", (&s.as_str()).encode(), &c.bytes);
@@ -88,7 +88,7 @@ fn c01_borrowed(rng: &mut Rng, n: u64, rep: &mut Report) {
 		($($t:ty),*) => {$({
 			let ops = monitor::probe_ops!(Compact<$t>);
 			for _ in 0..n {
-				let c = gen_case(&ops, rng, false);
+				let c = gen_case(&ops, rng, small);
 				let x = <Compact<$t> as monitor::bridge::Modelled>::from_val(&c.val).0;
 				check(rep, concat!("CompactRef<", stringify!($t), ">"), CompactRef(&x).encode(), &c.bytes);
 				check(rep, concat!("&Compact<", stringify!($t), ">"), (&Compact(x)).encode(), &c.bytes);
@@ -174,7 +174,7 @@ pub fn c01(ctx: &Ctx) {
 	}
 	if ctx.shard == ctx.nshards - 1 {
 		let mut rng = ctx.rng_for("borrowed");
-		c01_borrowed(&mut rng, ctx.budget(1500, 30_000), &mut rep);
+		c01_borrowed(&mut rng, ctx.budget(1500, 30_000), ctx.is_slow(), &mut rep);
 	}
 	if ctx.shard == 1 % ctx.nshards && ctx.tier == Tier::Thorough && !ctx.is_slow() {
 		c01_limits(&mut rep);
